@@ -1,0 +1,9 @@
+//go:build verif
+
+package gast
+
+// Contracts for gvc (see /verif/DESIGN.md). Comment-only: this file adds no code to any build.
+
+//@ func CommentNode.Range props C18,C14 pure
+//@ ensures result.StartLine >= 0 && result.StartCol >= 0 && result.EndLine >= 0 && result.EndCol >= 0
+//@ ensures implies(c.Position.StartLine >= 0, result.StartLine == c.Position.StartLine) && implies(c.Position.StartCol >= 0, result.StartCol == c.Position.StartCol) && implies(c.Position.EndLine >= 0, result.EndLine == c.Position.EndLine) && implies(c.Position.EndCol >= 0, result.EndCol == c.Position.EndCol)
